@@ -10,7 +10,7 @@ Require Import Zrs.lib.RsPrelude Zrs.gen.RefTables Zrs.gen.Generated Zrs.model.B
 Require Import Zrs.proofs.C12_Fse.
 Require Import Zrs.model.BitIO Zrs.model.BitStream Zrs.model.SeqEnc Zrs.model.BlockDec Zrs.proofs.C12_Stream Zrs.proofs.C12_SeqStream Zrs.proofs.C12_Predef.
 Require Import Zrs.model.FseEnc Zrs.model.SeqSection Zrs.proofs.C12_Desc Zrs.proofs.C12_Section.
-Require Import Zrs.model.FseNorm Zrs.proofs.C12_Norm.
+Require Import Zrs.model.FseNorm Zrs.proofs.C12_Norm Zrs.proofs.C12_NormTotal Zrs.proofs.C12_TableWf Zrs.proofs.C12_Covers.
 Open Scope Z_scope.
 
 Theorem C12_ll_predefined_eq_ref :
@@ -121,8 +121,30 @@ Proof. exact section_bytes_roundtrip. Qed.
 Theorem C12_normaliser_output_is_normalised : forall counts max_log al probs,
   5 <= max_log -> Forall (fun c => 0 <= c) counts -> 0 < last counts 0 -> (2 <= length counts)%nat ->
   norm_counts counts max_log true = ROk (al, probs) ->
-  dist_ok al probs /\ 5 <= al <= max_log /\ length probs = length counts /\ Forall (fun p => 0 <= p) probs.
+  dist_ok al probs /\ 5 <= al <= max_log /\ length probs = length counts /\ Forall (fun p => 0 <= p) probs /\
+  zsum probs = 2 ^ al /\ (forall i, 0 < nth i counts 0 -> 1 <= nth i probs 0).
 Proof. exact norm_counts_normalised. Qed.
+
+(** ... and it always returns: no unwrap of an empty selection, no failed assertion, for every histogram of 2..256
+    entries with a positive last entry and the table sizes the block encoder uses (8, 9) *)
+Theorem C12_normaliser_never_panics : forall counts max_log,
+  8 <= max_log -> Forall (fun c => 0 <= c) counts -> 0 < last counts 0 -> (2 <= length counts <= 256)%nat ->
+  exists al probs, norm_counts counts max_log true = ROk (al, probs).
+Proof. exact norm_counts_total. Qed.
+
+(** the general table theorem for distributions without "less than one" probabilities (what the normaliser produces):
+    for every accuracy log 5..9 and every vector of non-negative probabilities summing to 2^accuracy_log, the decoder's
+    table construction succeeds, the table is well formed, and every symbol with a positive probability has states
+    whose ranges cover the whole state space -- the hypotheses of the stream and section theorems *)
+Theorem C12_every_built_table_is_well_formed : forall t acc_log probs D, 0 < acc_log ->
+  fse_build_from_probabilities t acc_log probs = ROk D -> table_wf D.
+Proof. exact built_table_is_well_formed. Qed.
+Theorem C12_built_tables_cover_their_symbols : forall al probs ms,
+  5 <= al <= 9 -> Forall (fun p => 0 <= p) probs -> zsum probs = 2 ^ al ->
+  (length probs <= 256)%nat -> Z.of_nat (length probs) <= ms + 1 ->
+  exists D, fse_build_from_probabilities (fse_new ms) al probs = ROk D /\
+    forall i, (i < length probs)%nat -> 1 <= nth i probs 0 -> covers D (Z.of_nat i).
+Proof. exact built_table_covers. Qed.
 
 Example C12_normaliser_single_symbol : norm_counts [7] 9 true = ROk (5, [16; 16]).
 Proof. vm_compute. reflexivity. Qed.
@@ -138,6 +160,9 @@ Proof. vm_compute. repeat split. Qed.
 
 Print Assumptions C12_table_description_roundtrip.
 Print Assumptions C12_normaliser_output_is_normalised.
+Print Assumptions C12_normaliser_never_panics.
+Print Assumptions C12_every_built_table_is_well_formed.
+Print Assumptions C12_built_tables_cover_their_symbols.
 Print Assumptions C12_sequence_section_roundtrip.
 Print Assumptions C12_normalised_is_decidable.
 Print Assumptions C12_predefined_sequences_roundtrip.
